@@ -8,7 +8,9 @@ import subprocess
 from .. import common, tla
 from . import resources_common as rc
 
-INVARIANTS = rc.INV_ALL
+# every invariant of Resources.tla; the three that quantify over all paths in their memoised form (see ResourcesTrace.tla)
+HEAVY = ('PathEquivalence', 'DefaultIffKeyError', 'LatestWins')
+INVARIANTS = [('T_' + i) if i in HEAVY else i for i in rc.INV_ALL]
 OPS = ('set', 'clear', 'push', 'call', 'hclear', 'fault', 'get', 'item', 'snap', 'sattr', 'sitem', 'sget', 'smut')
 
 
@@ -71,9 +73,12 @@ def record_parallel(K, seed, n_traces, n_calls, procs=8):
         return [t for part in ex.map(_record_chunk, jobs) for t in part]
 
 
-def corrupt(traces):
-    """One observation of the first trace altered: (corrupted copy, index of the event) or (None, None)."""
-    bad = copy.deepcopy(traces[:1])
+def corrupt(traces, rejected=()):
+    """One observation of the first accepted trace altered: (corrupted copy, index of the event) or (None, None)."""
+    ok = [t for i, t in enumerate(traces) if i not in rejected and t['events']]
+    if not ok:
+        return None, None
+    bad = copy.deepcopy(ok[:1])
     evs = bad[0]['events']
     # a lookup that found something now claims another object; failing that, a handle claims to be cached
     k = next((i for i, e in enumerate(evs) if i >= len(evs) // 2 and e['den']), None)
@@ -109,7 +114,7 @@ def trace_validate(res, name, n_traces, n_calls, K=None, shards=8, invariants=No
     if traces and traces[0]['events']:
         res.sample({'recorded_trace_first_events': [[e['op'], e['a1'], e['a2'], e['a3'], e['rk'], e['ri']]
                                                     for e in traces[0]['events'][:10]]})
-    bad, k = corrupt(traces)
+    bad, k = corrupt(traces, {i for i, _at in rej})
     if bad is not None:
         r2 = tracecheck.validate(res, gen, name + '-corrupted', bad, consts, overrides=ov, shards=1)
         cov[name]['corrupted_trace_rejected_at_event'] = r2[0][1] if r2 else None
